@@ -218,3 +218,58 @@ Proof.
   unfold ptaken in Tk. rewrite Tk in Gi. simpl in Gi.
   destruct (ppres sh GBypass) eqn:E; [now rewrite Gi|]. specialize (A GBypass E). cbn [tget] in A. unfold g0 in A. congruence.
 Qed.
+
+(* ---- at the end every group of the plan is idle ---- *)
+Lemma ended_idle sh s g : pinv sh s -> ended s -> g_is_idle (tget (s_g s) g) = true.
+Proof.
+  intros P E. pose proof (pi_thr _ _ P E) as Nl. destruct (pi_tab _ _ P) as [A T].
+  assert (St : pstage (s_ph s) = SgEnd) by (destruct E as [-> | ->]; reflexivity).
+  rewrite St in T. cbn zeta in T.
+  destruct T as [(Eb & Ep & Ec & Eo & Ed & Et)|(Nb & Cp & Lc & Io & Id)].
+  - destruct g; cbn [tget]; rewrite ?Eb, ?Ep, ?Ec, ?Eo, ?Ed; reflexivity.
+  - destruct g; cbn [tget].
+    + eapply not_taken_idle; eauto.
+    + eapply closed_idle; eauto.
+    + unfold cont_late in Lc. destruct (ppres sh GCont).
+      * destruct Lc as (_ & Hn & Hd). destruct (s_thr s); [destruct (Hn eq_refl) as [v ->]; reflexivity|now elim Nl|now apply Hd].
+      * destruct Lc as [-> _]. reflexivity.
+    + now apply idle_once_idle.
+    + now apply idle_once_idle.
+Qed.
+
+(* an idle group against its track and the durable status of the group *)
+Lemma idle_track im sc g n x t dst :
+  g_is_idle x = true -> grel im sc g n x t -> gimg x dst ->
+  k_open t = false /\ k_failed t = status_eqb dst Failed /\ k_runs t = g_runs x
+  /\ (1 <= g_runs x -> k_done t = true).
+Proof.
+  destruct x as [r l|]; [|discriminate]. intros _ [L (A & B & C & _)] Gi. simpl. destruct r as [|r].
+  - destruct l; [destruct Gi|]. simpl in Gi. subst dst.
+    unfold k_open, k_failed, k_done. rewrite A, (B eq_refl), failed_repeat_unmarked. simpl. repeat split; auto. lia.
+  - destruct l as [v|]; [|destruct Gi]. simpl in Gi. destruct (C ltac:(lia)) as [Ov El]. injection El as ->.
+    unfold k_open, k_done. rewrite A, Ov. simpl. repeat split; auto.
+    subst dst. destruct (k_failed t); reflexivity.
+Qed.
+
+Lemma stage_of_bad sh f g :
+  In g [GPre; GCont; GPost; GDeferred] -> gbad sh f g = true -> stage_of sh f <> FRUnknown.
+Proof.
+  intros Ig B. unfold stage_of.
+  destruct (gbad sh f GPre) eqn:B1; [discriminate|]. destruct (gbad sh f GCont) eqn:B2; [discriminate|].
+  destruct (bbad sh f); [discriminate|]. destruct (gbad sh f GPost) eqn:B4; [discriminate|].
+  destruct (gbad sh f GDeferred) eqn:B5; [discriminate|].
+  simpl in Ig. destruct Ig as [<-|[<-|[<-|[<-|[]]]]]; congruence.
+Qed.
+
+Lemma stage_of_cont sh f : stage_of sh f = FRContCheck -> gbad sh f GCont = true.
+Proof.
+  unfold stage_of. destruct (gbad sh f GPre); [discriminate|]. destruct (gbad sh f GCont); [auto|].
+  destruct (bbad sh f); [discriminate|]. destruct (gbad sh f GPost); [discriminate|].
+  destruct (gbad sh f GDeferred); discriminate.
+Qed.
+Lemma stage_of_def sh f : stage_of sh f = FRDeferredCheck -> gbad sh f GDeferred = true.
+Proof.
+  unfold stage_of. destruct (gbad sh f GPre); [discriminate|]. destruct (gbad sh f GCont); [discriminate|].
+  destruct (bbad sh f); [discriminate|]. destruct (gbad sh f GPost); [discriminate|].
+  destruct (gbad sh f GDeferred); [auto|discriminate].
+Qed.
